@@ -8,6 +8,8 @@ import vlib
 from props import fam_sf as F
 
 
+MANIFEST = {'technique': 'Coq proof (table well-formedness by vm_compute, f" >= 0 over R) + bit-exact purity oracle (array/scalar/order/threads, TSan in thorough) + pole/edge scans on gemmi', 'text': 'Theorems over the orbital table regenerated from /repo: index table contiguous, nparm consistent with the data present, energies positive/descending and equal to the Gauss nodes the branch uses, >= 3 usable points per orbital (the seeded Ce row is reported by this theorem); f" >= 0 for the real-number model of the f" sum (_partial: f\' quadrature not modelled). Oracles on gemmi: cromer_liberman_for_array = per-energy calls bit-exactly in any order and from 1-16 threads, Z outside 3..92 leaves outputs untouched, finite values, f" >= 0, jumps only at tabulated edges on a dense log grid 1-80 keV plus brackets of every edge and of every computed sigma-pole energy, documentation values reproduced. Five spurious f\' poles caused by inconsistent table energies are recorded as KNOWN FINDINGS (not repairable without the reference data).', 'note': 'Trusted: Coq kernel + vm_compute; Reals axioms for the f" theorem; translator gen/dump_fprime.cpp; extraction; harness. Purity across threads is a runtime fact: tested bit-exactly, not proved.'}
+
 def exact_edge_energy(binden):
     """an energy (eV) for which 0.001*E is exactly the float binden, so that cromer() sees bena == energa
     (the branch condition `bena <= energa` is decided exactly there); falls back to 1000*binden."""
@@ -87,9 +89,7 @@ def table_findings(chk, t, d):
 def run(chk):
     quick = chk.tier == 'quick'
     rng = random.Random(chk.seed)
-    with open(os.path.join(vlib.ROOT, 'props', 'sf_known_findings.json')) as f:
-        chk.known += [k for k in json.load(f)['known'] if k.get('property') == 'C17' and
-                      k['id'] not in [x['id'] for x in chk.known]]
+    # known findings for C17 live in /verif/known_findings.json (loaded by vlib.Check)
     F.gen_tables()
     t = F.gen_fprime_tables()
     chk.trusted += ['translator gen/dump_fprime.cpp -> coq/Sf/Fprime_gen.v (index table, 1249 orbital rows, Kissel-Pratt correction); '
